@@ -507,6 +507,30 @@ class Gen:
             ops.append({"op": "change_comp", "name": y, "comp": copy.deepcopy(m.comps[y]), "group": m.groups[y], "rail": r})
         return ops
 
+    def ops_rename_above_then_unlink(self, m):
+        """The component above a (non-source) mux input gets a new name, then
+        that input is removed keeping what is below: the mux is now fed by the
+        renamed component."""
+        mux = m.mux()
+        if mux is None:
+            return []
+        cands = [d for d in m.parents[mux] if m.kind(d) != "Source" and not m.del_ambiguous(d, False)]
+        if not cands:
+            return []
+        d = self.r.pick(cands)
+        g_ = m.parents[d][0]
+        spec = copy.deepcopy(m.comps[g_])
+        spec["name"] = self.fresh(m.kind(g_)[:2], m)
+        ops = [{"op": "change_comp", "name": g_, "comp": spec, "group": m.groups[g_], "rail": m.rails.get(g_, "")}]
+        if self.r.chance(0.3):
+            # the freed name is taken over as a rail name by another component
+            hosts = [n for n in self.nonload(m) if n not in (g_, d, mux) and not m.rails.get(n)]
+            if hosts:
+                y = self.r.pick(hosts)
+                ops.append({"op": "change_comp", "name": y, "comp": copy.deepcopy(m.comps[y]), "group": m.groups[y], "rail": g_})
+        ops.append({"op": "del_comp", "name": d, "del_childs": False})
+        return ops
+
     def op_move(self, m):
         """Move a leaf under another parent: delete it and add it again (the
         component count is the same before and after)."""
@@ -595,6 +619,12 @@ class Gen:
             out.append(("change_by_rail", {"op": "change_comp", "name": self.r.pick(rails), "comp": c("RLoss"), "group": "", "rail": ""}))
             out.append(("cphase_by_rail", {"op": "set_comp_phases", "name": self.r.pick(rails), "conf": ["a"]}))
             out.append(("source_rail_in_use", {"op": "add_source", "comp": self.source(m), "group": "", "rail": self.r.pick(rails)}))
+        own = [n for n in names if m.rails.get(n)]
+        if own:
+            x = self.r.pick(own)
+            kx = m.kind(x)
+            bad = self.source(m, name=m.rails[x]) if kx != "Source" else c("RLoss", name=m.rails[x])
+            out.append(("rename_to_own_rail_rejected", {"op": "change_comp", "name": x, "comp": bad, "group": "", "rail": ""}))
         out.append(("rail_is_name", {"op": "add_comp", "parent": anyp, "comp": c("RLoss"), "group": "", "rail": anyn}))
         nm = self.fresh("X", m)
         out.append(("name_eq_rail", {"op": "add_comp", "parent": anyp, "comp": c("VLoss", name=nm), "group": "", "rail": nm}))
@@ -791,7 +821,8 @@ class Gen:
             op["group"] = self.r.chance(0.7)
             op["config"] = self.diag_config(m)
         elif kind == "plot_interp":
-            op["name"] = self.r.pick(m.order)
+            tabbed = [n for n in m.order if any(isinstance(v, dict) for v in m.comps[n]["p"].values())]
+            op["name"] = self.r.pick(tabbed) if tabbed and self.r.chance(0.8) else self.r.pick(m.order)
             op["plot3d"] = self.r.chance(0.3)
             op["inpdata"] = self.r.chance(0.7)
         if self.r.chance(0.2):
@@ -877,6 +908,8 @@ class Gen:
         op = {"op": "batt_life", "battery": ref, "cutoff": cutoff, "model": model, "limit": 150}
         if self.r.chance(0.3):
             op["tags"] = {"Battery": self.r.pick(["small", "big"]), "n": 1}
+        if self.r.chance(0.25):
+            model["mutable_state"] = True  # probe/deplete return one list object, updated in place
         if self.r.chance(0.5):
             op["clock"] = self.r.pick(["mono", "stall", "back", "jump"])
         return op
@@ -904,6 +937,9 @@ class Gen:
             conf["node"].setdefault(key, {})[attr] = val
         if self.r.chance(0.3):
             conf["node"]["__default_override__"] = {"shape": self.r.pick(["oval", "box3d"])}
+        if self.r.chance(0.2):
+            # the caller's configuration need not carry every library default
+            conf["__remove__"] = self.r.pick([("node", "style"), ("node", "penwidth"), ("edge", "headport"), ("graph", "nodesep")])
         gs = sorted(set(g for g in m.groups.values() if g))
         if gs and self.r.chance(0.5):
             conf["cluster"][self.r.pick(gs)] = {"fillcolor": self.r.pick(colors)}
